@@ -355,6 +355,30 @@ var vc08FailKinds = []struct {
 	{"wrapped-canceled", false, fmt.Errorf("forwarding: %w", context.Canceled)},
 }
 
+// vc08WrapTexts are the annotations the real chain puts around an upstream
+// error (middlewares, forwarder, upstream, the net package).
+var vc08WrapTexts = []string{
+	"ratelimitmw",
+	"mainmw: upstream",
+	"preupstreammw",
+	"ecs-cache: upstream",
+	"forwarding to [2001:db8:1234:5678:9abc:def0:1234:5678]:53 with fallback [2001:db8:8765:4321:fedc:ba98:7654:3210]:53",
+	"upstreamplain: exchanging with [2001:db8:1234:5678:9abc:def0:1234:5678]:53 over udp",
+	"read udp [2001:db8:ffff:ffff:ffff:ffff:ffff:fffe]:49152->[2001:db8:1234:5678:9abc:def0:1234:5678]:53",
+}
+
+// vc08WrapErr wraps err in 0..7 drawn annotations (up to about 450 octets of
+// text), the way errors travel up the handler chain.  Wrapping with %w keeps
+// the class of the error.
+func vc08WrapErr(t *rapid.T, err error) (wrapped error) {
+	wrapped = err
+	for i, n := 0, rapid.IntRange(0, 7).Draw(t, "errWraps"); i < n; i++ {
+		wrapped = fmt.Errorf("%s: %w", rapid.SampledFrom(vc08WrapTexts).Draw(t, "errWrapText"), wrapped)
+	}
+
+	return wrapped
+}
+
 // ownResponse reports whether whatever the client gets is built by the server
 // itself rather than by the handler.
 func (m vc08HandlerMode) ownResponse() bool { return m == vc08HErrNoWrite || m == vc08HSilent }
@@ -668,10 +692,25 @@ func vc08GenCap(t *rapid.T) uint16 {
 	}
 }
 
+// vc08ReqHint steers the request towards what a handler-fails case needs: the
+// server's own SERVFAIL consists of header, question and OPT only, so its size
+// is decided by the length of the name and of whatever the OPT carries, against
+// a small advertised size.
+type vc08ReqHint struct {
+	longName bool
+	smallAdv bool
+}
+
 // vc08GenReq builds a query a client can send on tr.  The plain-UDP query is
 // at most 512 octets by construction (the production read buffer).
-func vc08GenReq(t *rapid.T, tr vc08Transport, cap uint16) (req *dns.Msg, f vc08ReqFacts) {
+func vc08GenReq(t *rapid.T, tr vc08Transport, cap uint16, hint vc08ReqHint) (req *dns.Msg, f vc08ReqFacts) {
 	f.Name = vc08GenName(t)
+	if hint.longName {
+		// 243..255 octets on the wire.
+		f.Name = vc08LongName('k')
+		f.Name = f.Name[:len(f.Name)-1-rapid.IntRange(0, 12).Draw(t, "longNameShorter")] + "."
+	}
+
 	f.Qtype = rapid.SampledFrom([]uint16{dns.TypeA, dns.TypeAAAA, dns.TypeTXT, dns.TypeHTTPS, dns.TypeMX, dns.TypeANY}).Draw(t, "qtype")
 	f.Pad, f.NSID = -1, -1
 
@@ -693,9 +732,13 @@ func vc08GenReq(t *rapid.T, tr vc08Transport, cap uint16) (req *dns.Msg, f vc08R
 		req.Response = true
 	}
 
-	f.HasOpt = rapid.IntRange(0, 6).Draw(t, "hasOpt") != 0
+	f.HasOpt = rapid.IntRange(0, 6).Draw(t, "hasOpt") != 0 || hint.smallAdv
 	if f.HasOpt {
 		f.UDPSize = vc08GenUDPSize(t, cap)
+		if hint.smallAdv {
+			f.UDPSize = rapid.SampledFrom([]uint16{0, 1, 300, 511, 512, 513, 520, 540, 600}).Draw(t, "advSmallHint")
+		}
+
 		f.DO = rapid.Bool().Draw(t, "do")
 		f.Version = rapid.SampledFrom([]uint8{0, 0, 0, 0, 1, 255}).Draw(t, "version")
 
@@ -1204,6 +1247,7 @@ type vc08Obs struct {
 
 	failKind    string
 	failTimeout bool
+	failTextLen int
 }
 
 func vc08FindOpts(m *dns.Msg) (opts []*dns.OPT, misplaced int) {
@@ -1271,7 +1315,8 @@ func vc08Run(
 			}
 		}
 
-		c.Handler += ":" + e.failKind
+		ob.failTextLen = len(e.failErr.Error())
+		c.Handler += fmt.Sprintf(":%s:text%d", e.failKind, ob.failTextLen)
 	}
 
 	if tr == vc08UDP {
@@ -1326,6 +1371,16 @@ func vc08Judge(fnd *vc08Findings, c *vc08Case, tr vc08Transport, out vc08Out, ob
 
 		if tr.datagram() && rf.Len >= limit-8 {
 			cls("server-servfail-request-near-udp-limit")
+		}
+
+		// Would the error text, if it were put into the response, push header +
+		// question + OPT + EDE over the limit?
+		if ob.failTimeout && rf.HasOpt && tr.datagram() && 12+len(rf.Name)+5+11+6+ob.failTextLen > limit {
+			cls("server-servfail-timeout-text-plus-name-exceed-udp-limit")
+		}
+
+		if ob.failTextLen >= 200 {
+			cls("fail-text-200-or-more")
 		}
 	}
 
@@ -1709,6 +1764,7 @@ func TestVerifC08Transports(t *testing.T) {
 		"server-servfail-request-near-udp-limit", "udp-cap-through-constructor", "udp-via-session-conn",
 		"fail:context-deadline", "fail:os-deadline", "fail:net-error-timeout", "fail:wrapped-context-deadline",
 		"fail:context-canceled", "fail:generic",
+		"server-servfail-timeout-text-plus-name-exceed-udp-limit", "fail-text-200-or-more",
 	)
 	st.Finish(t)
 
@@ -1725,13 +1781,20 @@ func TestVerifC08Transports(t *testing.T) {
 		}).Draw(t, "transport")
 		cap := vc08GenCap(t)
 		dohGet := tr == vc08DoH && rapid.IntRange(0, 3).Draw(t, "dohGet") == 0
-		req, rf := vc08GenReq(t, tr, cap)
+		m := rapid.IntRange(0, 19).Draw(t, "handlerMode")
+		var hint vc08ReqHint
+		if m >= 5 && m < 8 {
+			hint.longName = rapid.Bool().Draw(t, "failLongName")
+			hint.smallAdv = rapid.IntRange(0, 4).Draw(t, "failSmallAdv") < 3
+		}
+
+		req, rf := vc08GenReq(t, tr, cap, hint)
 		limit := vc08Limit(tr, rf.HasOpt, rf.UDPSize, cap)
 		resp, pf := vc08GenResp(t, tr, req, rf, limit)
 
 		// What the handler does with the query.
 		e.mode, e.foreign = vc08HNormal, nil
-		switch m := rapid.IntRange(0, 19).Draw(t, "handlerMode"); {
+		switch {
 		case m < 3:
 			e.mode = vc08HReqCopy
 		case m < 5:
@@ -1740,7 +1803,7 @@ func TestVerifC08Transports(t *testing.T) {
 		case m < 8:
 			e.mode = vc08HErrNoWrite
 			k := rapid.SampledFrom(vc08FailKinds).Draw(t, "failKind")
-			e.failErr, e.failKind = k.err, k.name
+			e.failErr, e.failKind = vc08WrapErr(t, k.err), k.name
 			vc08FillRequest(t, tr, req, &rf)
 		case m == 8:
 			e.mode = vc08HSilent
